@@ -24,7 +24,7 @@ ASSUMPTIONS = [
     "float comparison of conditionals: 1e-12 absolute after pure re-indexing, 1e-9 after arithmetic",
 ]
 
-OPS = ["construct", "reorder_inplace", "reorder_inplace", "reorder_copy", "marginalize", "reduce", "normalize", "copy", "to_factor"]
+OPS = ["construct", "reorder_inplace", "reorder_inplace", "reorder_copy", "marginalize", "reduce", "normalize", "copy", "to_factor", "to_csv"]
 
 
 @st.composite
@@ -43,7 +43,7 @@ def cpd_case(draw):
     k = cards[0]
     cols = [draw(gen.column(k, ("dense", "dense", "dense", "zeros", "onehot"))) for _ in range(ncol)]
     table = [[cols[j][i] for j in range(ncol)] for i in range(k)]
-    op = draw(st.sampled_from(OPS if npar else ["construct", "normalize", "copy", "to_factor"]))
+    op = draw(st.sampled_from(OPS if npar else ["construct", "normalize", "copy", "to_factor", "to_csv"]))
     args = {}
     if op.startswith("reorder"):
         args["order"] = list(draw(st.permutations(parents)))
@@ -241,6 +241,38 @@ def check_cpd(case, out):
         except Exception:  # noqa: BLE001
             pass
         untouched("copy")
+    elif op == "to_csv":
+        # the exported 2-D table: one header row per parent naming the parent state of every column, then one row per
+        # child state; cell (i, j) is P(child = state i | j-th parent configuration in row-major order)
+        import csv
+        import os
+
+        path = os.path.join(os.environ.get("VF_TMP") or "/tmp", "cpd.csv")
+        r = out.call("to_csv", cpd.to_csv, path)
+        if r is RAISED:
+            return
+        with open(path, newline="") as fh:
+            rows = list(csv.reader(fh))
+        sts = {v: case["states"][([child] + parents).index(v)] for v in [child] + parents}
+        cfgs = list(itertools.product(*[range(len(sts[p])) for p in parents]))
+        want_rows = [[str(p)] + [f"{p}({sts[p][cfg[i]]})" for cfg in cfgs] for i, p in enumerate(parents)]
+        if len(rows) != len(parents) + len(sts[child]):
+            out.fail("to_csv:row_count", f"{len(rows)} rows")
+            return
+        for i, hdr in enumerate(want_rows):
+            if rows[i] != hdr:
+                out.fail("to_csv:header", f"row {i}: {rows[i]} vs {hdr}")
+                return
+        for i, st_ in enumerate(sts[child]):
+            row = rows[len(parents) + i]
+            if row[0] != f"{child}({st_})" or len(row) != 1 + len(table[0]):
+                out.fail("to_csv:row_label", f"{row[:1]} vs {child}({st_})")
+                return
+            vals = [float(x) for x in row[1:]]
+            if any(abs(a - b) > 1e-12 * max(1.0, abs(b)) for a, b in zip(vals, table[i])):
+                out.fail("to_csv:values", f"row {i}: {vals} vs {table[i]}")
+                return
+        untouched("to_csv")
     elif op == "to_factor":
         f = out.call("to_factor", cpd.to_factor)
         if f is RAISED:
